@@ -134,13 +134,23 @@ def gen_inputs(ctx):
     out = [("PathParse", T(s), key) for s, key in parse]
     for i, (s, key) in enumerate(bypath):
         out.append(("ByPath", {"path": T(s), "wallet": W_MAIN if i % 3 else W_TEST}, key))
+    # wallets imported from an ACCOUNT-level extended private key (depth 3, child number 7'): a path is applied to the
+    # wallet's own root component by component - the absolute path the original wallet printed is just another path here
+    from .. import refprims as R0, refwallet as W0
+    tab0 = R0.Table()
+    for flav, net in (("bip84", "main"), ("bip44", "test"), ("bip49", "main")):
+        rn = W0.derive(tab0, W0.master(tab0, bytes(range(32)), net), [84 + 2 ** 31, 2 ** 31, 7 + 2 ** 31])
+        xs = W0.ser(tab0, rn, W0.VERSIONS[("prv", net, flav)], True)
+        for s in ("m/84'/0'/7'/0/5", "m/44'/1'/7'/1", "m/84'/0'/7'", "m/0/5", "m/7'/0/5", "m/84'/0'/7'/0", "m/49'/0'/7'/0/0", "m/0'/0'/7'/3/4", "m"):
+            out.append(("ByPath", {"path": T(s), "wallet": "xkey:" + xs}, ("bypath-on-imported-account-key", s.count("/"))))
     return out
 
 
 def describe(ev):
     if ev["act"] == "PathParse":
         return "Bip32Path.parse(%r)" % core.untext(ev["inp"])
-    return "wallet.by_path(%r)" % core.untext(ev["inp"]["path"])
+    return "wallet%s.by_path(%r)" % (" imported from " + ev["inp"]["wallet"][5:9] + ".. (depth 3)" if ev["inp"]["wallet"].startswith("xkey:") else "",
+                                      core.untext(ev["inp"]["path"]))
 
 
 def site(ev, clause):
